@@ -386,18 +386,23 @@ def run(chk):
             tb = oqupy.PtTebd(initial_augmented_mps=oqupy.AugmentedMPS([_rho, _rho]), system_chain=chain, process_tensors=[None, None],
                               parameters=oqupy.PtTebdParameters(dt=dt, order=1, epsrel=1e-6), dynamics_sites=[0],
                               start_time=start, start_step=s0)
+            rops = ["RInit"]          # the operations on the object's recorder (Model/TimeGrid.v, r_apply): the constructor initialises
             # half of the runs reach the end step in two compute calls and ask for it a second time
             if i % 2 == 1 and n >= 2:
                 info["continued_from"] = s0 + rng.randint(1, n - 1)
                 quiet(tb.compute, info["continued_from"], progress_type="silent")
                 quiet(tb.compute, s0 + n, progress_type="silent")
+                rops += ["RStep"] * n
             if i % 4 == 2:
                 # every run: the same object started over (initialize()) after a finished run -- the second run's grid is a fresh one
                 info["restarted"] = True
                 quiet(tb.compute, s0 + n, progress_type="silent")
                 handed_out = tb.get_results()
                 quiet(tb.initialize)
+                rops += ["RStep"] * n + ["RInit"]
             res = quiet(tb.compute, s0 + n, progress_type="silent")
+            if "continued_from" not in info:
+                rops += ["RStep"] * n
             times = [float(t) for t in res["time"]]
             dtimes = [float(t) for t in res["dynamics"][0].times]
         except Exception as ex:
@@ -415,6 +420,13 @@ def run(chk):
             exp += fbits(t)
         add(f"flat_map (fun k => let '(s,m,e) := fbits (tebd_time {float_lit(start)} {float_lit(dt)} (Z.of_nat k + {s0}) {s0}) in [s;m;e]) (seq 0 {n + 1})",
             exp, info, ("tebd", dts, sts, s0, n))
+        # the recorded dynamics of the site against the recorder model under the operations the object went through (initialisations,
+        # steps): theorem restart_records_fresh_grid speaks about this list
+        expd = []
+        for t in dtimes:
+            expd += fbits(t)
+        add(f"flat_map (fun k => let '(s,m,e) := fbits (tebd_time {float_lit(start)} {float_lit(dt)} (Z.of_nat k + {s0}) {s0}) in [s;m;e]) "
+            f"(rec_labels false [{'; '.join(rops)}])", expd, dict(info, recorder_ops=len(rops)), ("tebd-rec", dts, sts, s0, n, len(rops)))
 
     vals, errs = run_cases("C13", HEADER, exprs)
     for e in errs:
